@@ -307,9 +307,16 @@ Definition run_sim (l : list N) : list (list N) :=
   | _ => [[99]]
   end.
 
+(** framework case on the std::time clock (nanosecond ticks relative to the
+    harness's base instant): same layout and output as tag 1 *)
+Definition pfcase_std : parser fcase :=
+  c <~ pcfg_std ;; t0 <~ pnum ;; h <~ plist pcall ;; tp <~ plist pnum ;;
+  pret (mkfcase c (Z.of_N t0) h tp).
+
 (** entry point: tag 1 = framework case, 2 = validation case, 3 = sampling
     case, 4 = transition-vector case, 5-8 = codec cases, 9 = FFI case,
-    10 = simulator case, 11 = legacy v1 parser case *)
+    10 = simulator case, 11 = legacy v1 parser case, 12 = framework case on
+    the std clock *)
 Definition run_wire (l : list N) : list (list N) :=
   match l with
   | 1 :: rest =>
@@ -327,5 +334,10 @@ Definition run_wire (l : list N) : list (list N) :=
   | 9 :: rest => run_ffi rest
   | 10 :: rest => run_sim rest
   | 11 :: rest => [V1.run_v1 rest]
+  | 12 :: rest =>
+      match pfcase_std rest with
+      | Some (fc, []) => run_fcase fc
+      | _ => [[99]]
+      end
   | _ => [[98]]
   end.
